@@ -1,9 +1,16 @@
 #!/bin/sh
 # MANIFEST.setup_cmd: offline build of the harness from files on disk + reference-model self tests.
+# Also warms the two auxiliary build directories (CLI under test for C18, Miri for C16/C17) so that
+# the first quick run does not pay for them; both are rebuilt by the checks themselves when /repo changes.
 set -e
 ROOT="$(cd "$(dirname "$0")" && pwd)"
 export CARGO_NET_OFFLINE=true
+export VERIF_ROOT="$ROOT"
 mkdir -p "$ROOT/build" "$ROOT/evidence"
 cd "$ROOT/harness"
 cargo build --release --offline 2>&1 | tail -n 3
 "$ROOT/build/harness/release/avra-verif" selfcheck
+# best effort, never fatal
+cargo build --offline --manifest-path /repo/Cargo.toml --target-dir "$ROOT/build/cli" --bin avra-rs >/dev/null 2>&1 || echo "note: CLI warm-up build failed (C18 will report)"
+MIRIFLAGS="-Zmiri-disable-isolation" cargo +nightly miri run --offline --target-dir "$ROOT/build/miri" -- miri-conc c17 >/dev/null 2>&1 || echo "note: Miri warm-up failed (Miri legs will be skipped or reported inconclusive)"
+exit 0
